@@ -65,33 +65,266 @@ def ref_ssa(itf, U, timepoints, uniform, t0=0.0):
     return res
 
 
+class RefQueue:
+    """Reference delay queue: slot k (k = 0..C-1) is due at nqt + k*dt; nearest-slot filing with clamping."""
+    def __init__(self, R, C, dt, t0):
+        self.R, self.C, self.dt = R, C, dt
+        self.nqt = t0 + dt
+        self.slots = [[0.0] * R for _ in range(C)]
+
+    def add(self, time, r, amt):
+        k = int((time - self.nqt) / self.dt + 0.5)
+        k = max(0, min(self.C - 1, k))
+        self.slots[k][r] += amt
+
+    def pop(self):
+        out = self.slots.pop(0)
+        self.slots.append([0.0] * self.R)
+        self.nqt += self.dt
+        return out
+
+
+def _choose(a, lam, uniform):
+    q = uniform() * lam
+    ps, j = 0.0, 0
+    while ps < q and j < len(a):
+        ps += a[j]
+        j += 1
+    return j - 1
+
+
+def ref_delay(itf, M, U, D, timepoints, uniform, qdt, t0=0.0):
+    x = np.array(itf.py_get_initial_state(), dtype=float).copy()
+    params = np.array(M.get_parameter_values(), dtype=float)
+    n = len(timepoints)
+    res = np.zeros((n, len(x)))
+    q = RefQueue(U.shape[1], n, qdt, t0)
+    t, ci = t0, 0
+    while ci < n:
+        a = itf.py_compute_propensities(x.copy(), t, 1.0, "stochastic")
+        lam = float(a.sum())
+        fired = False
+        prop = timepoints[ci]
+        if lam > 0:
+            cand = t + (-1.0 / lam * math.log(uniform()))
+            if cand <= timepoints[ci]:
+                prop, fired = cand, True
+        move = q.nqt < prop
+        if move:
+            t, fired = q.nqt, False
+        else:
+            t = prop
+        while ci < n and timepoints[ci] <= t:
+            res[ci, :] = x
+            ci += 1
+        if move:
+            amts = q.pop()
+            for r, amt in enumerate(amts):
+                x = x + amt * D[:, r]
+        elif fired:
+            j = _choose(a, lam, uniform)
+            delay = M.get_delays()[j].py_get_delay(x.copy(), params)
+            x = x + U[:, j]
+            if delay > 0:
+                q.add(t + delay, j, 1.0)
+            else:
+                x = x + D[:, j]
+    return res
+
+
+def ref_volume(itf, S_net, vol, timepoints, uniform, dt, t0=0.0):
+    """Volume SSA: a volume step happens exactly when the clock reaches the next volume-step time."""
+    x = np.array(itf.py_get_initial_state(), dtype=float).copy()
+    params = np.array(itf.py_get_param_values(), dtype=float)
+    n = len(timepoints)
+    res = np.zeros((n, len(x)))
+    vtr = np.zeros(n)
+    V = vol.py_get_volume()
+    nvt = t0 + dt
+    t, ci = t0, 0
+    divided = False
+    while ci < n:
+        a = itf.py_compute_propensities(x.copy(), t, V, "stochastic_volume")
+        lam = float(a.sum())
+        fired = False
+        prop = timepoints[ci]
+        if lam > 0:
+            prop, fired = t + (-1.0 / lam * math.log(uniform())), True
+        move = nvt < prop
+        if move:
+            t, fired = nvt, False
+            nvt += dt
+        else:
+            t = prop
+        while ci < n and timepoints[ci] <= t:
+            res[ci, :] = x
+            vtr[ci] = V
+            ci += 1
+        if move:
+            V += vol.py_get_volume_step(x.copy(), params, t, V, dt)
+            vol.py_set_volume(V)
+            if vol.py_cell_divided(x.copy(), params, t, V, dt):
+                divided = True
+                break
+        elif fired:
+            j = _choose(a, lam, uniform)
+            x = x + S_net[:, j]
+    if divided:
+        return res[:ci], vtr[:ci], timepoints[:ci], True
+    return res, vtr, timepoints, False
+
+
+def ref_delay_volume(itf, M, U, D, vol, timepoints, uniform, dt, qdt, t0=0.0):
+    x = np.array(itf.py_get_initial_state(), dtype=float).copy()
+    params = np.array(M.get_parameter_values(), dtype=float)
+    n = len(timepoints)
+    res = np.zeros((n, len(x)))
+    vtr = np.zeros(n)
+    V = vol.py_get_volume()
+    q = RefQueue(U.shape[1], n, qdt, 0.0)      # py_simulate_model never re-times the queue in this mode
+    nvt = t0 + dt
+    t, ci = t0, 0
+    divided = False
+    while ci < n:
+        a = itf.py_compute_propensities(x.copy(), t, V, "stochastic_volume")
+        lam = float(a.sum())
+        prop = None
+        if lam > 0:
+            prop = t + (-1.0 / lam * math.log(uniform()))
+        if prop is not None and prop < nvt and prop < q.nqt:
+            kind, t = "reaction", prop
+        elif nvt < q.nqt:
+            kind, t = "volume", nvt
+            nvt += dt
+        else:
+            kind, t = "queue", q.nqt
+        while ci < n and timepoints[ci] <= t:
+            res[ci, :] = x
+            vtr[ci] = V
+            ci += 1
+        if kind == "reaction":
+            j = _choose(a, lam, uniform)
+            delay = M.get_delays()[j].py_get_delay(x.copy(), params)
+            x = x + U[:, j]
+            if delay > 0:
+                q.add(t + delay, j, 1.0)
+            else:
+                x = x + D[:, j]
+        elif kind == "volume":
+            V += vol.py_get_volume_step(x.copy(), params, t, V, dt)
+            vol.py_set_volume(V)
+            if vol.py_cell_divided(x.copy(), params, t, V, dt):
+                divided = True
+                break
+        else:
+            for r, amt in enumerate(q.pop()):
+                x = x + amt * D[:, r]
+    if divided:
+        return res[:ci], vtr[:ci], timepoints[:ci], True
+    return res, vtr, timepoints, False
+
+
+def _mkvol(growing):
+    from bioscrape.types import Volume, StochasticTimeThresholdVolume
+    if growing:
+        v = StochasticTimeThresholdVolume(2.0, 2.0, 0.0)
+        v.py_initialize(np.zeros(1), np.zeros(1), 0.0, 1.0)
+        return v
+    v = Volume()
+    v.py_set_volume(1.5)
+    return v
+
+
 def replay(spec):
     import warnings
     warnings.simplefilter("ignore")
     from bioscrape.types import Model
-    from bioscrape.simulator import ModelCSimInterface, SSASimulator
+    from bioscrape.simulator import (ModelCSimInterface, SSASimulator, DelaySSASimulator, VolumeSSASimulator,
+                                     DelayVolumeSSASimulator, ArrayDelayQueue)
     from bioscrape.random import py_seed_random, py_uniform_rv
     kind = spec.get("kind", "ssa")
-    seeds = spec.get("seeds", 60)
+    seeds = spec.get("seeds", 40)
     found = []
+
+    def differ(a, b):
+        a, b = np.asarray(a, dtype=float), np.asarray(b, dtype=float)
+        return a.shape != b.shape or not np.allclose(a, b, rtol=1e-9, atol=1e-9)
+
     for mi, (species, rxns, params, init) in enumerate(_models(kind)):
-        for grid in (np.linspace(0, 3, 7), np.array([0.0, 0.1, 0.5, 0.6, 2.0, 4.0])):
-            for seed in range(1, seeds + 1):
-                M = Model(species=species, reactions=rxns, parameters=params, initial_condition_dict=init)
-                itf = ModelCSimInterface(M)
-                itf.py_set_initial_time(0.0)
-                U, D = _net(M)
-                py_seed_random(seed)
-                real = SSASimulator().py_simulate(itf, grid.copy()).py_get_result()
-                py_seed_random(seed)
-                ref = ref_ssa(ModelCSimInterface(M), U + D, grid, py_uniform_rv)
-                if real.shape != ref.shape or not np.allclose(real, ref, rtol=0, atol=1e-9):
-                    found.append({"model": mi, "seed": seed, "grid": list(grid),
-                                  "real": real.tolist()[:4], "reference": ref.tolist()[:4]})
+        for grid in (np.linspace(0, 3, 7), np.linspace(0, 2, 9)) + \
+                ((np.array([0.0, 0.1, 0.5, 0.6, 2.0, 4.0]),) if kind == "ssa" else ()):
+            dt = grid[1] - grid[0]
+            qdt = dt
+            if kind == "delay_volume" and spec.get("misaligned", True) and len(grid) == 9:
+                dt, qdt = 0.37, 0.41        # volume / queue clocks not aligned with the reporting grid
+            for growing in ((False, True) if kind in ("volume", "delay_volume") else (False,)):
+                for seed in range(1, seeds + 1):
+                    def fresh():
+                        M = Model(species=species, reactions=rxns, parameters=params, initial_condition_dict=init)
+                        itf = ModelCSimInterface(M)
+                        itf.py_set_initial_time(0.0)
+                        itf.py_set_dt(dt)
+                        return M, itf
+                    M, itf = fresh()
+                    U, D = _net(M)
+                    why = None
+                    try:
+                        if kind == "ssa":
+                            py_seed_random(seed)
+                            real = SSASimulator().py_simulate(itf, grid.copy())
+                            py_seed_random(seed)
+                            ref = ref_ssa(fresh()[1], U + D, grid, py_uniform_rv)
+                            if differ(real.py_get_result(), ref):
+                                why = "states differ"
+                        elif kind == "delay":
+                            py_seed_random(seed)
+                            q = ArrayDelayQueue.setup_queue(U.shape[1], len(grid), dt)
+                            real = DelaySSASimulator().py_delay_simulate(itf, q, grid.copy())
+                            py_seed_random(seed)
+                            M2, itf2 = fresh()
+                            ref = ref_delay(itf2, M2, U, D, grid, py_uniform_rv, dt)
+                            tp = real.py_get_timepoints()
+                            if tp is None or differ(tp, grid):
+                                why = "result time axis is %r, requested %s" % (tp, list(grid))
+                            elif differ(real.py_get_result(), ref):
+                                why = "states differ"
+                        elif kind == "volume":
+                            py_seed_random(seed)
+                            v = _mkvol(growing)
+                            real = VolumeSSASimulator().py_volume_simulate(itf, v, grid.copy())
+                            py_seed_random(seed)
+                            v2 = _mkvol(growing)
+                            rres, rvol, rt, rdiv = ref_volume(fresh()[1], U + D, v2, grid, py_uniform_rv, dt)
+                            if differ(real.py_get_result(), rres):
+                                why = "states differ"
+                            elif differ(real.py_get_volume(), rvol):
+                                why = "volume trace %s, growth law gives %s" % (list(real.py_get_volume())[:6], list(rvol)[:6])
+                            elif differ(real.py_get_timepoints(), rt) or bool(real.py_cell_divided()) != rdiv:
+                                why = "time axis / divided flag differ"
+                        else:
+                            py_seed_random(seed)
+                            v = _mkvol(growing)
+                            q = ArrayDelayQueue.setup_queue(U.shape[1], len(grid), qdt)
+                            real = DelayVolumeSSASimulator().py_delay_volume_simulate(itf, q, v, grid.copy())
+                            py_seed_random(seed)
+                            v2 = _mkvol(growing)
+                            M2, itf2 = fresh()
+                            rres, rvol, rt, rdiv = ref_delay_volume(itf2, M2, U, D, v2, grid, py_uniform_rv, dt, qdt)
+                            if differ(real.py_get_result(), rres):
+                                why = "states differ"
+                            elif differ(real.py_get_volume(), rvol):
+                                why = "volume traces differ"
+                    except Exception as e:
+                        why = "real build raised %s: %s" % (type(e).__name__, e)
+                    if why:
+                        found.append({"model": mi, "seed": seed, "grid": [float(g) for g in grid], "growing": growing,
+                                      "why": why})
+                        break
+                if found:
                     break
             if found:
                 break
         if found:
             break
     return {"reproduced": bool(found), "observed": found[:1],
-            "expected": "trajectory of the reference direct method on the same random stream"}
+            "expected": "result of the reference %s algorithm on the same random stream" % kind}
